@@ -122,12 +122,20 @@ func (f *FnEnc) callAbstract(x ssa.Value, key string, args []Val, argVs []ssa.Va
 	if f.builtinExternal(x, key, args, argVs, results) {
 		return
 	}
-	ct := f.e.cs.ByName[key]
+	ct := f.e.cs.ByName[key+"@"+f.name]
+	if ct != nil {
+		key = key + "@" + f.name
+	} else {
+		ct = f.e.cs.ByName[key]
+	}
 	if ct == nil {
 		f.fail("call to %s which has no abstract contract", key)
 		return
 	}
-	env := map[string]string{}
+	// abstract contracts may mention the caller's named locals (call-site contracts)
+	env := f.baseEnv(f.st)
+	delete(env, "H")
+	delete(env, "H0")
 	for i, p := range ct.Params {
 		if i < len(args) {
 			env[p] = args[i].T
@@ -203,6 +211,13 @@ func (f *FnEnc) applyContract(ct *Contract, name string, env map[string]string, 
 		}
 		if post.comps["W"] != pre.comps["W"] {
 			f.assume(fmt.Sprintf("(>= %s %s)", post.comps["W"], pre.comps["W"]))
+		}
+		for _, n := range mods {
+			if post.comps[n] != pre.comps[n] {
+				if wf := f.heapWF(n, post.comps[n], post.comps["W"]); wf != "" {
+					f.assume(wf)
+				}
+			}
 		}
 	}
 	// results
